@@ -208,6 +208,9 @@ def resolves_to_depth(ctor, a, md):
     for _ in range(3):
         if x == md:
             return True
+        if x[0] == 'call' and x[1][0] in ('name', 'attr') and x[1][-1] == 'Memory' and x[2]:
+            x = x[2][0]                                     # the Memory object itself (reached through a local name)
+            continue
         st = ctor.stores.get(ir.show(x))
         if st is None:
             return False
